@@ -960,8 +960,22 @@ m("C10", "message-object-stringified", C,
                 else:
                     target = __markup()""")''')
 m("C10", "attr-translate-default-none", C,
-  '''            emit_translate(target, msgid, default=target)''',
-  '''            emit_translate(target, msgid)''')
+  '''            emit_translate(target, msgid, default=target,
+                           target_language=TARGET_LANGUAGE)''',
+  '''            emit_translate(target, msgid,
+                           target_language=TARGET_LANGUAGE)''')
+m("C10", "attr-translate-target-rewritten", C,
+  '''            emit_translate(target, msgid, default=target,
+                           target_language=TARGET_LANGUAGE)''',
+  '''            emit_translate(target, msgid, default=target)''')
+m("C10", "inline-convert-target-rewritten", C,
+  '''            default_marker=self._default_marker,
+            target_language=TARGET_LANGUAGE,
+''', '''            default_marker=self._default_marker,
+''')
+m("C10", "target-constant-is-a-plain-name", C,
+  'TARGET_LANGUAGE = Builtin("target_language")',
+  'TARGET_LANGUAGE = load("target_language")')
 m("C10", "duplicate-name-accepted", C,
   '''        if node.name in self._translations[-1]:
             raise TranslationError(
